@@ -22,7 +22,7 @@ RULE = ('one evaluation = one seeded simulated run of 2-4 contenders (threads sh
         'acquire; distinct = SHA-256 of the seam event log')
 ASSUMPTIONS = ['polling acquire loops (1 ms virtual sleeps) are run with critical sections of at most a few virtual milliseconds',
                'lock keys carry no expiry in this check']
-PROBES = ('contended_acquire', 'nested_rlock', 'bad_release_refused', 'lock_wait', 'barrier_calls', 'with_statement', 'cs_raised', 'barrier_mixed_with_primitive', 'fresh_handles', 'json_disk', 'long_section')
+PROBES = ('contended_acquire', 'nested_rlock', 'bad_release_refused', 'lock_wait', 'barrier_calls', 'with_statement', 'cs_raised', 'barrier_mixed_with_primitive', 'fresh_handles', 'json_disk', 'long_section', 'outer_same_key')
 TECHNIQUE = 'deterministic simulation: seeded schedules of contenders with virtual-time polling; holder-count witness invariant checked at every critical-section entry; bounded-progress check'
 LEVEL_TEXT = ('seeded exploration of contender interleavings at seam granularity (and source lines for shared objects) with a witness '
               'invariant (holders <= 1, <= value for the semaphore, re-entrancy only by the owner) evaluated during the run, plus '
@@ -64,6 +64,7 @@ def gen_case(seed, tier):
         cfg['line_p'] = 0.0
         if kind == 'sem':
             cfg['value'] = 1
+    cfg['outer_same_key'] = rng.random() < 0.15
     cfg['json_disk'] = rng.random() < 0.2      # the primitives keep their state as cache values: any Disk must do
     # 'handles': every acquire and every release goes through a fresh Lock / RLock / BoundedSemaphore object on the same key -
     # the state lives in the cache, the objects are interchangeable handles that may be dropped at any time
@@ -205,6 +206,14 @@ def run_case(case):
                         except CsError:
                             probes['cs_raised'] = probes.get('cs_raised', 0) + 1
                     return True
+                outer = None
+                if cfg.get('outer_same_key'):
+                    # the contender already holds an unrelated primitive of the same kind and the same key on ANOTHER cache
+                    # (its own, nobody else uses it): a primitive is identified by cache and key, not by key alone
+                    ocache = dc.Cache(world.path('o%d' % i), eviction_policy='none')
+                    outer = make_prim(ocache)
+                    outer.acquire()
+                    probes['outer_same_key'] = 1
                 prim = inherited['copies'][i] if forked else make_prim(cache)
                 if cfg['bad_release'] and i == 0 and kind == 'rlock':
                     try:
@@ -287,6 +296,9 @@ def run_case(case):
                                                'detail': 'extra release() by a thread that released as often as it acquired did not raise'})
                     except AssertionError:
                         probes['bad_release_refused'] = probes.get('bad_release_refused', 0) + 1
+                if outer is not None:
+                    outer.release()
+                    ocache.close()
                 return True
             return fn
 
